@@ -177,6 +177,9 @@ class Index(object):
             self.tidied = tidy_inlined_temps(trees) if self.inlined_helpers else 0
             from .normalize import thread_optional_locals
             self.threaded = thread_optional_locals(trees) if self.inlined_helpers else 0
+            if self.inlined_helpers and ref:
+                # temporaries the inliner left that are used once in the next statement fold back into it
+                self.unextracted += undo_extracted_locals(trees, ref)
             self.desugared = desugar(trees)
         for m in self.modules.values():
             self._scan_module(m)
